@@ -51,6 +51,9 @@ func (p *TapePicker) Spawned(g *rt.G) {
 	}
 }
 
+// ChooseBranch resolves a select statement with several ready cases.
+func (p *TapePicker) ChooseBranch(n int) int { return p.T.Choose(n) }
+
 func (p *TapePicker) AdvanceEarly() bool {
 	if p.Fair || p.NoEarly || p.advN == 0 {
 		return false
